@@ -4,8 +4,8 @@ Every generator is a pure function of its random.Random instance, so VERIF_SEED 
 """
 import random
 
-KNOWN_KINDS = ["slice", "vecref", "arrref", "range", "vec", "array", "cloned_slice", "copied_slice"]
-TICKET_KINDS = ["iter", "refiter", "cloned_iter", "copied_iter"]
+KNOWN_KINDS = ["slice", "vecref", "arrref", "range", "rangeref", "vec", "array", "cloned_slice", "copied_slice", "numslice"]
+TICKET_KINDS = ["iter", "refiter", "numrefiter", "cloned_iter", "copied_iter"]
 ALL_KINDS = KNOWN_KINDS + TICKET_KINDS
 CONSUMING = ["vec", "array", "iter"]
 ARRAY_LENS = [0, 1, 2, 3, 4, 5, 6, 8]
@@ -123,4 +123,27 @@ def sequential(rng, sid, kind, ln=None, nops=None, p_skip=0.1):
         sc["start"] = rng.choice([0, 0, 1, 5, 17])
     if kind in TICKET_KINDS:
         sc["hint"] = rng.choice(["exact", "exact", "inexact", "unbounded"])
+    return sc
+
+
+def composite(rng, sid, kind, ln=None):
+    """for_each / enumerate_for_each / fold on every thread with mixed chunk sizes (1 takes a different code
+    path than > 1), sometimes mixed with direct pulls by another thread."""
+    if ln is None:
+        ln = rng.choice(ARRAY_LENS) if kind in ("array", "arrref") else rng.randrange(0, 10)
+    nthreads = rng.choice([2, 3])
+    threads = []
+    for t in range(nthreads):
+        if t > 0 and rng.random() < 0.25:
+            threads.append(thread_prog(rng, ln, rng.randrange(1, 3)))
+        else:
+            threads.append([{"op": rng.choice(["foreach", "eforeach", "fold"]),
+                             "n": rng.choice([1, 1, 2, 3, ln + 1])}])
+    sc = {"id": sid, "kind": kind, "len": ln, "threads": threads,
+          "policy": rng.choice(["rand", "sticky"]), "seed": rng.randrange(1 << 30),
+          "post": [{"op": "hasmore"}, {"op": "next"}] + ([{"op": "intoseq"}] if rng.random() < 0.5 else [])}
+    if kind == "range":
+        sc["start"] = rng.choice([0, 3])
+    if kind in TICKET_KINDS:
+        sc["hint"] = rng.choice(["exact", "inexact", "unbounded"])
     return sc
